@@ -116,3 +116,54 @@ Proof.
     + rewrite ?Em. cbn [optb]. reflexivity.
   - cbn [fst]. reflexivity.
 Qed.
+
+(* ---- receiveUntil: one iteration of its loop ---- *)
+Definition step_out (x : gstate + (option Z * gstate)) : option recv_res * gstate :=
+  match x with inl st => (None, st) | inr (e, st) => (Some (recv_of e), st) end.
+
+Lemma recv_of_ok e : recv_of e = ROk -> e = None.
+Proof.
+  destruct e as [z|]; [|reflexivity]. unfold recv_of.
+  destruct (z =? -1); [discriminate|]. destruct (z =? -101); [discriminate|]. destruct (z =? -102); [discriminate|].
+  destruct (z <=? -200); discriminate.
+Qed.
+
+Theorem receive_until_step_agrees c ok s' r' unt :
+  scan (scan_fuel c) (csc c) (crd c) = SR ok s' r' ->
+  (ok = true -> exists t, tok s' = Some t /\ wf_bytes t) ->
+  0 <= unt < 256 ->
+  let c' := snd (receive c) in
+  rmap step_out (g_Client_receiveUntil_step ok (optb (tok s')) (err_code (sc_err s')) unt (abs c)) =
+  match fst (receive c) with
+  | ROk => match message_identifier c' with
+           | Ok i => Val (if (Z.of_N i =? unt) then Some ROk else None, abs c')
+           | _ => Pan
+           end
+  | r => Val (Some r, abs c')
+  end.
+Proof.
+  intros Hs Htok Hu c'. pose proof (receive_agrees c ok s' r' Hs Htok) as RA.
+  unfold g_Client_receiveUntil_step. unfold abs at 1.
+  change (optb (cmsg c), optb (cpay c), optb (cpkt c), Z.of_nat (cnext c)) with (abs c).
+  destruct (g_Client_Receive ok (optb (tok s')) (err_code (sc_err s')) (abs c)) as [[e st]|] eqn:EG; cbn [rmap] in RA; [|discriminate].
+  injection RA as Hr Hst. cbn [rbind]. destruct st as [[[m1 m2] m3] m4].
+  destruct (fst (receive c)) eqn:Er.
+  - (* accepted *)
+    pose proof (recv_of_ok e Hr) as ->. cbn [rbind].
+    assert (Hmsg : exists t, cmsg c' = Some t /\ wf_bytes t /\ (5 <= length t)%nat).
+    { clear Hst EG. unfold c'. unfold receive in Er |- *. rewrite Hs in Er |- *. destruct ok.
+      - destruct (Htok eq_refl) as (t & Ht & Hw). rewrite Ht in Er |- *. destruct (validate t) eqn:Ev; cbn [fst snd] in Er |- *; try discriminate.
+        exists t. cbn [cmsg]. ssplit; [reflexivity|exact Hw|]. apply validate_iff_wf in Ev. destruct Ev as (H5 & _). exact H5.
+      - cbn [fst] in Er. discriminate. }
+    fold c' in Hst.
+    destruct Hmsg as (t & Hc & Hw & Hl). unfold message_identifier. rewrite Hc.
+    assert (Em1 : m1 = t). { unfold abs in Hst. rewrite Hc in Hst. cbn [optb] in Hst. congruence. }
+    subst m1. rewrite (identifier_agrees t Hw). unfold identifier. rewrite get_nthb by lia. cbn [of_opt rbind].
+    destruct (Z.eqb_spec (Z.of_N (nthb t 2)) unt); cbn [negb rmap step_out recv_of]; rewrite <- Hst; reflexivity.
+  - assert (He : exists z, e = Some z) by (destruct e; [eexists; reflexivity|cbn in Hr; discriminate]). destruct He as [z ->].
+    cbn [rbind rmap step_out]. rewrite Hr, Hst. reflexivity.
+  - assert (He : exists z, e = Some z) by (destruct e; [eexists; reflexivity|cbn in Hr; discriminate]). destruct He as [z ->].
+    cbn [rbind rmap step_out]. rewrite Hr, Hst. reflexivity.
+  - assert (He : exists z, e = Some z) by (destruct e; [eexists; reflexivity|cbn in Hr; discriminate]). destruct He as [z ->].
+    cbn [rbind rmap step_out]. rewrite Hr, Hst. reflexivity.
+Qed.
